@@ -239,7 +239,7 @@ def write_shard(prop: Prop, idx: int, items, outdir: Path) -> Path:
     ]
     lines.append(";\n".join(f" ({prop.case_to_coq(c)},\n  {prop.obs_to_coq(o)})" for c, o in items))
     lines.append("].")
-    lines.append(f"Eval vm_compute in (report {mod}.run {mod}.out_eqb {mod}.holds_b cases).")
+    lines.append(f"Eval vm_compute in (Obs.report {mod}.run {mod}.out_eqb {mod}.holds_b cases).")
     path.write_text("\n".join(lines) + "\n")
     return path
 
@@ -294,6 +294,8 @@ def run_check(prop: Prop, tier: str, seed: int, replay: str | None = None) -> in
             old.unlink()
     (VERIF / "evidence").mkdir(exist_ok=True)
     (VERIF / "replays").mkdir(exist_ok=True)
+    for old in (VERIF / "replays").glob(f"{pid}-*.json"):
+        old.unlink()
 
     broken: list[dict] = []       # obligations / correspondences that no longer check
     violations: list[dict] = []   # concrete failing inputs (monitor false on implementation)
